@@ -174,6 +174,8 @@ class Monitors:
             rel = f"{f.acq.name}/{f.name}"
             if (node.name, rel) in sim.tainted:
                 continue
+            if getattr(sim, "unsettled", {}).get(node.host, 0) > 0:
+                continue  # that host's daemon was killed and has not yet run two full iterations: not a quiescent point for its nodes
             p = pathlib.Path(node.root, rel)
             if c.has_file == "Y":
                 if not p.is_file():
